@@ -14,6 +14,8 @@ use crate::disk::{FileImg, Image, OsEff};
 use crate::exec::{open_log, run_script, TempDir};
 use crate::{load_scripts, parallel, write_lines, Args, Output};
 
+const BLOCK: usize = 32_768;
+
 const SITES: [(FaultSite, &str); 4] = [
     (FaultSite::ListDir, "list"),
     (FaultSite::OpenFile, "open"),
@@ -98,6 +100,8 @@ pub fn cmd(args: &Args) {
     let all_kinds = args.flag("all-kinds");
     let gc_images = args.flag("gc-images");
     let max_gc_images = args.num("max-gc-images", 6) as usize;
+    let damaged_images = args.flag("damaged-images");
+    let max_damaged_images = args.num("max-damaged-images", 3) as usize;
     let n = scripts.len();
     let output_in = output.clone();
     parallel(n, args.num("jobs", 8) as usize, &out_dir, "trace", move |job, file| {
@@ -127,6 +131,40 @@ pub fn cmd(args: &Args) {
             // a directory without any WAL file: open lists it, creates and sizes the first file
             images.push(("empty".to_string(), BTreeMap::new()));
         }
+        if damaged_images {
+            // images with a block the reader gives up on (an invalid frame type at the block's first
+            // header): the reader then loads the NEXT block while "skipping a corrupted block" - a
+            // separate path from the ordinary end-of-block one - and a failure of that load (a read,
+            // or the open of the next file when the block closes its file) must be reported too
+            let numbers: Vec<u64> = image.files.keys().copied().collect();
+            let mut targets: Vec<(u64, usize)> = Vec::new();
+            for (idx, number) in numbers.iter().enumerate() {
+                let blocks = image.files[number].data.len() / BLOCK;
+                if blocks == 0 {
+                    continue;
+                }
+                // the last block of a file that has a successor; the first and a middle block
+                if idx + 1 < numbers.len() {
+                    targets.push((*number, blocks - 1));
+                }
+                targets.push((*number, 0));
+                if blocks > 2 {
+                    targets.push((*number, blocks / 2));
+                }
+            }
+            targets.dedup();
+            let start = job % targets.len().max(1);
+            for pick in 0..targets.len().min(max_damaged_images) {
+                let (number, block) = targets[(start + pick * 2) % targets.len()];
+                let mut files = image.files.clone();
+                let data = &mut files.get_mut(&number).unwrap().data;
+                if data.len() < block * BLOCK + 7 {
+                    continue;
+                }
+                data[block * BLOCK + 6] = 0xff;
+                images.push((format!("badblock@{number}.{block}"), files));
+            }
+        }
         if gc_images {
             let effects = os_effects(&record, false);
             let mut partial = Image::default();
@@ -152,14 +190,20 @@ pub fn cmd(args: &Args) {
             continue;
         }
         output_in.add("images", 1);
-        if image_name != "closed" {
+        if image_name.starts_with("pre-unlink") {
             output_in.add("gc_crash_images", 1);
+        }
+        if image_name.starts_with("badblock") {
+            output_in.add("damaged_images", 1);
         }
         output_in.add("image_files", image.files.len() as u64);
         for (site_idx, (site, site_name)) in SITES.iter().enumerate() {
             // crash images: the write-side sites only matter once (list / read faults are the
             // closed image's business), but open-or-create calls are enumerated in full
             if image_name.starts_with("pre-unlink") && *site_name != "open" {
+                continue;
+            }
+            if image_name.starts_with("badblock") && *site_name != "open" && *site_name != "read" {
                 continue;
             }
             for k in 0..baseline.counts[site_idx] {
